@@ -317,6 +317,12 @@ def run_schedule(sched: dict, fallback_base: str, repo: str, result_cb) -> None:
         driver = Driver(sched, world, writer)
         raw = sim.SimRaw(driver)
         ctx.update(world=world, seams=seams, writer=writer, driver=driver, net=net, plan=plan)
+        from . import oracles as _or
+
+        if "c03" in sched.get("oracles", []):
+            driver.idle_hooks.append(_or.c03_stale_hook)
+        if "c09" in sched.get("oracles", []) or "c09r" in sched.get("oracles", []):
+            driver.idle_hooks.append(_or.c09_range_hook)
         clock = sim.StepClock()
         clock.start()
         os.chdir(sim.real(sched.get("cwd", ROOT)))
